@@ -296,8 +296,11 @@ class Ctx:
             "wall_s": round(time.time() - self.t0, 2),
             "violations": self.violations,
         }
-        os.makedirs(os.path.join(VERIF, "evidence"), exist_ok=True)
-        with open(os.path.join(VERIF, "evidence", f"{self.prop}.json"), "w") as f:
+        # evidence/ always describes /repo itself: a run pointed at another checkout (COTENGRA_REPO, used to
+        # try a check against a modified copy) leaves its record under replays/ (not committed)
+        sub = "evidence" if os.path.realpath(REPO) == "/repo" else os.path.join("replays", "evidence-other-checkout")
+        os.makedirs(os.path.join(VERIF, sub), exist_ok=True)
+        with open(os.path.join(VERIF, sub, f"{self.prop}.json"), "w") as f:
             json.dump(ev, f, indent=1, default=str)
 
 
@@ -318,3 +321,63 @@ def repo_fingerprint():
             if fn.endswith(".py"):
                 h.update(open(os.path.join(dp, fn), "rb").read())
     return h.hexdigest()[:12]
+
+
+# ---- source-change sensitivity -----------------------------------------------------------------
+# The models are hand-written and validated against the text of /repo that was current when the
+# committed evidence was produced. `anchors.json` (tools/mkanchors.py) records a comment- and
+# docstring-insensitive hash of every cotengra source file at that moment. When a file a property is
+# anchored in has a different hash now, the model's validation is stale for that text: the check
+# then always runs the deeper implementation-side failing-input search as well (never a violation
+# by itself).
+
+def source_hashes(repo=None):
+    import ast
+
+    def strip(node):
+        for n in ast.walk(node):
+            if isinstance(n, (ast.FunctionDef, ast.AsyncFunctionDef, ast.ClassDef, ast.Module)):
+                b = n.body
+                if b and isinstance(b[0], ast.Expr) and isinstance(getattr(b[0], "value", None), ast.Constant) \
+                        and isinstance(b[0].value.value, str):
+                    n.body = b[1:] or [ast.Pass()]
+        return node
+    root = os.path.join(repo or REPO, "cotengra")
+    out = {}
+    for dp, dn, fns in sorted(os.walk(root)):
+        dn.sort()
+        for fn in sorted(fns):
+            if not fn.endswith(".py"):
+                continue
+            path = os.path.join(dp, fn)
+            rel = os.path.relpath(path, repo or REPO)
+            try:
+                dump = ast.dump(strip(ast.parse(open(path).read())), annotate_fields=False)
+            except SyntaxError:
+                dump = "syntax-error:" + open(path).read()
+            out[rel] = hashlib.sha1(dump.encode()).hexdigest()[:16]
+    return out
+
+
+def anchored_files(prop, mod=None):
+    files = set(getattr(mod, "ANCHOR_FILES", []) or [])
+    try:
+        for line in open(os.path.join(VERIF, "properties.jsonl")):
+            p = json.loads(line)
+            if p.get("id") == prop:
+                files.update(p.get("anchors", {}).get("files", []))
+    except OSError:
+        pass
+    return sorted(files)
+
+
+def changed_anchor_files(prop, mod=None):
+    """Anchored source files of `prop` whose (comment/docstring-insensitive) hash differs from the one
+    recorded in anchors.json; [] when there is no record."""
+    path = os.path.join(VERIF, "anchors.json")
+    if not os.path.exists(path):
+        return []
+    rec = json.load(open(path)).get("files", {})
+    now = source_hashes()
+    return [f for f in anchored_files(prop, mod) if rec.get(f) != now.get(f)]
+
